@@ -111,6 +111,79 @@ fn run_inner(
     }
 }
 
+/// Structural hash of a built circuit (see `Compiled::fingerprint`).
+pub(crate) fn circuit_fingerprint(c: &p3_circuit::Circuit<Challenge>) -> u64 {
+    use p3_circuit::Op;
+    struct H(u64);
+    impl H {
+        fn u(&mut self, x: u64) {
+            for b in x.to_le_bytes() {
+                self.0 ^= b as u64;
+                self.0 = self.0.wrapping_mul(0x100000001b3);
+            }
+        }
+        fn ws(&mut self, ws: &[p3_circuit::WitnessId]) {
+            self.u(ws.len() as u64);
+            for w in ws {
+                self.u(w.0 as u64);
+            }
+        }
+        fn ow(&mut self, w: &Option<p3_circuit::WitnessId>) {
+            self.u(w.map_or(u64::MAX, |w| w.0 as u64));
+        }
+    }
+    let mut h = H(0xcbf29ce484222325);
+    h.u(c.witness_count as u64);
+    h.u(c.public_flat_len as u64);
+    h.u(c.private_flat_len as u64);
+    h.ws(&c.public_rows);
+    h.ws(&c.private_input_rows);
+    h.u(c.ops.len() as u64);
+    for op in &c.ops {
+        match op {
+            Op::Const { out, val } => {
+                h.u(1);
+                h.u(out.0 as u64);
+                for x in ef_coeffs(val) {
+                    h.u(x);
+                }
+            }
+            Op::Public { out, public_pos } => {
+                h.u(2);
+                h.u(out.0 as u64);
+                h.u(*public_pos as u64);
+            }
+            Op::Alu { kind, a, b, c, out, intermediate_out } => {
+                h.u(3);
+                h.u(*kind as u64);
+                h.u(a.0 as u64);
+                h.u(b.0 as u64);
+                h.ow(c);
+                h.u(out.0 as u64);
+                h.ow(intermediate_out);
+            }
+            Op::Hint { inputs, outputs, .. } => {
+                h.u(4);
+                h.ws(inputs);
+                h.ws(outputs);
+            }
+            Op::NonPrimitiveOpWithExecutor { inputs, outputs, op_id, .. } => {
+                h.u(5);
+                h.u(op_id.0 as u64);
+                h.u(inputs.len() as u64);
+                for i in inputs {
+                    h.ws(i);
+                }
+                h.u(outputs.len() as u64);
+                for o in outputs {
+                    h.ws(o);
+                }
+            }
+        }
+    }
+    h.0
+}
+
 fn to_ef_vec(v: &[Vec<u64>]) -> Result<Vec<Challenge>, String> {
     v.iter().map(|c| ef_from(c)).collect()
 }
@@ -598,6 +671,9 @@ impl UniCompiled {
 }
 
 impl Compiled for UniCompiled {
+    fn fingerprint(&self) -> u64 {
+        circuit_fingerprint(&self.circuit)
+    }
     fn flat_lens(&self) -> (usize, usize) {
         (self.circuit.public_flat_len, self.circuit.private_flat_len)
     }
@@ -898,6 +974,9 @@ impl BatchCompiled {
 }
 
 impl Compiled for BatchCompiled {
+    fn fingerprint(&self) -> u64 {
+        circuit_fingerprint(&self.circuit)
+    }
     fn flat_lens(&self) -> (usize, usize) {
         (self.circuit.public_flat_len, self.circuit.private_flat_len)
     }
